@@ -70,7 +70,10 @@ def split_url(url: str) -> SplitURLType:
                 # a bracket pair cannot span the "@": the host would keep a
                 # lone bracket and the URL could not be parsed again
                 raise ValueError("Invalid IPv6 URL")
-            bracketed_host = netloc.partition("[")[2].partition("]")[0]
+            # look at the brackets of the host part when it has any (the
+            # first pair of the authority may belong to the userinfo)
+            bracket_src = hostinfo if "[" in hostinfo else netloc
+            bracketed_host = bracket_src.partition("[")[2].partition("]")[0]
             if "[" in bracketed_host:
                 # a bracket cannot occur inside an IP-literal; the host could
                 # not be bracketed again and would split differently later
